@@ -107,13 +107,13 @@ def jobs(tier: str):
         out = last_heads(j["prog"], inp)
         tr = [TRAITS] if quick else [DEFAULT, TRAITS]
         cfgs = [config(t, inp, out, OUT_ORC) for t in tr]
-        if not quick:
+        if not quick and "~" not in j["family"]:
             cfgs += [config(t, "auto", "auto", OUT_ORC) for t in tr]
             cfgs += [config(t, inp, [], OUT_ORC) for t in tr]
         return cfgs
 
     fams = ["C05", "C08", "C09", "C10", "C11", "C12", "C13", "C14", "C15", "C16"]
-    yield from compose.remap(compose.family_jobs(fams, tier, variants=12), "C01", mk, keep=slice_keep("quick"))
+    yield from compose.remap(compose.family_jobs(fams, "quick", variants=12 if quick else 60), "C01", mk, keep=slice_keep("quick"))
     # (c) frozen inputs of the repository's tests: universe derived mechanically
     yield from corpus_tests_jobs(tier)
 
